@@ -429,8 +429,14 @@ Record view := mkView {
   v_client : option pystr; v_sub : option pystr; v_scope : option (list pystr);
   v_nonce : option pystr; v_at_exp : option Z; v_idt_exp : option Z
 }.
-Definition view_session (s : session) : view :=
-  mkView (Some (s_client s)) (Some (s_sub s)) (Some (s_scope s)) (s_nonce s) (Some (s_at_exp s)) (Some (s_idt_exp s)).
+(* the provider's session database.  The ID Token minted by the TOKEN endpoint is recorded with its expiry; the
+   one minted by the AUTHORIZATION endpoint (Authorization.mint_token: no usage rule for id_token) keeps
+   expires_at = 0 although the token itself says now + lifetime.  A flow without an access token records no
+   access-token expiry. *)
+Definition view_session (has_token : bool) (s : session) : view :=
+  mkView (Some (s_client s)) (Some (s_sub s)) (Some (s_scope s)) (s_nonce s)
+         (if has_token then Some (s_at_exp s) else None)
+         (Some (if has_token then s_idt_exp s else 0%Z)).
 (* token response: scope and expires_in = expires_at - now; the view's expiry is now + expires_in *)
 Definition expires_in (s : session) (now_op : Z) : Z := (s_at_exp s - now_op)%Z.
 Definition view_token_response (s : session) (now_op : Z) : view :=
@@ -448,9 +454,6 @@ Definition view_id_token (s : session) : view :=
 Definition view_rp (has_token : bool) (s : session) (now_op now_rp : Z) : view :=
   mkView (Some (s_client s)) (Some (s_sub s)) (Some (s_scope s)) (s_nonce s)
          (if has_token then Some (now_rp + expires_in s now_op)%Z else None) (Some (s_idt_exp s)).
-(* a flow without an access token (response type id_token): nothing records an access-token expiry *)
-Definition view_session_no_token (s : session) : view :=
-  mkView (Some (s_client s)) (Some (s_sub s)) (Some (s_scope s)) (s_nonce s) None (Some (s_idt_exp s)).
 
 Definition opt_agree {A} (eqb : A -> A -> bool) (x y : option A) : bool :=
   match x, y with Some a, Some b => eqb a b | _, _ => true end.
@@ -465,9 +468,11 @@ Fixpoint all_agree (l : list view) : bool :=
   end.
 Definition all_views (has_token at_jwt : bool) (s : session) (now_op now_rp : Z) : list view :=
   if has_token then
-    [view_session s; view_token_response s now_op; view_introspection s; view_userinfo s; view_id_token s;
+    [view_session true s; view_token_response s now_op; view_introspection s; view_userinfo s; view_id_token s;
      view_rp true s now_op now_rp] ++ (if at_jwt then [view_jwt_access_token s] else [])
-  else [view_session_no_token s; view_id_token s; view_rp false s now_op now_rp].
+  else [view_session false s; view_id_token s; view_rp false s now_op now_rp].
+Definition forget_idt_exp (v : view) : view :=
+  mkView (v_client v) (v_sub v) (v_scope v) (v_nonce v) (v_at_exp v) None.
 
 Definition view_eqb (a b : view) : bool :=
   option_eqb str_eqb (v_client a) (v_client b) && option_eqb str_eqb (v_sub a) (v_sub b)
@@ -485,13 +490,20 @@ Definition diag_flow (k : cfg * inp * outcome) : outcome * list (place * bool) :
    observed view, each compared with the model's projection *)
 Record views_case := mkViewsCase {
   k_has_token : bool; k_at_jwt : bool; k_session : session; k_now_op : Z; k_now_rp : Z;
+  k_op_session : view;
   k_token_response : option view; k_introspection : option view; k_userinfo : option view; k_id_token : view;
   k_rp : view; k_jwt : option view
 }.
+Definition diag_views (k : views_case) : list (string * view) :=
+  let s := k_session k in
+  [("op_session", view_session (k_has_token k) s); ("token_response", view_token_response s (k_now_op k));
+   ("introspection", view_introspection s); ("userinfo", view_userinfo s); ("id_token", view_id_token s);
+   ("rp", view_rp (k_has_token k) s (k_now_op k) (k_now_rp k)); ("jwt", view_jwt_access_token s)].
 Definition opt_view_eqb (m : view) (o : option view) : bool :=
   match o with Some v => view_eqb m v | None => true end.
 Definition chk_views (k : views_case) : bool :=
   let s := k_session k in
+  view_eqb (view_session (k_has_token k) s) (k_op_session k) &&
   (if k_has_token k then
      match k_token_response k with Some v => view_eqb (view_token_response s (k_now_op k)) v | None => false end
    else match k_token_response k with None => true | Some _ => false end)
